@@ -555,3 +555,45 @@ package node_info
 //@   ensures [idleGpus] result == nil && old(storedTask(ni, ti).ResourceReceivedType) != "Fraction" && ti.ResourceReceivedType != "Fraction" ==> ni.Idle.gpus == old(ni.Idle.gpus) + old(idlePart(storedTask(ni, ti), nodeChargedGpus(storedTask(ni, ti)))) - idlePart(ti, nodeChargedGpus(ti))
 //@   ensures nodeWF(ni) && podsWF(ni) && taskWF(ti)
 //@ end
+
+// ---- added by helper "cache" ----
+// Snapshot construction of a node and of its pods (cluster_info.Snapshot): C14/C01 establish, C12 charge, C10 total.
+
+// per-GPU memory of a node as read from its `nvidia.com/gpu.memory` label (bytes above 1 TiB-in-MiB are converted,
+// the value is floored to a multiple of 100); 100 when the label is absent or not an int64
+//@ define gpuMemLabelOk(node *v1.Node) bool = tuple1(strconv.ParseInt(node.Labels[GpuMemoryLabel], 10, 64)) == nil
+//@ define gpuMemLabel(node *v1.Node) int = tuple0(strconv.ParseInt(node.Labels[GpuMemoryLabel], 10, 64))
+//@ define gpuMemMib(v int) int = ite(v < TibInMib, v, v / BitToMib)
+//@ define nodeGpuMemory(node *v1.Node) int = ite(gpuMemLabelOk(node), gpuMemMib(gpuMemLabel(node)) - gpuMemMib(gpuMemLabel(node)) % 100, DefaultGpuMemory)
+
+// two amounts agree field by field (cpu, memory, whole GPUs, every scalar resource incl. presence)
+//@ define sameResource(a *ri.Resource, b *ri.Resource) bool = a.milliCpu == b.milliCpu && a.memory == b.memory && a.gpus == b.gpus && (forall k v1.ResourceName :: a.scalarResources[k] == b.scalarResources[k] && (k in a.scalarResources <==> k in b.scalarResources))
+//@ define zeroResource(a *ri.Resource) bool = a.milliCpu == 0.0 && a.memory == 0.0 && a.gpus == 0.0 && (forall k v1.ResourceName :: !(k in a.scalarResources))
+// the amount a resource list denotes (see resource_info.ResourceFromResourceList)
+//@ define isListAmount(a *ri.Resource, rl v1.ResourceList) bool = a.milliCpu == real(ri.rlMilli(rl, v1.ResourceCPU)) && a.memory == real(ri.rlValue(rl, v1.ResourceMemory)) && a.gpus == real(ri.rlValue(rl, ri.GPUResourceName)) + real(ri.rlValue(rl, ri.amdGpuResourceName)) && (forall k v1.ResourceName :: a.scalarResources[k] == ri.rlScalar(rl, k) && (k in a.scalarResources <==> ri.rlScalarHas(rl, k)))
+// no shared-GPU bookkeeping yet
+//@ define noSharedGpus(ni *NodeInfo) bool = forall g string :: !(g in ni.UsedSharedGPUsMemory) && !(g in ni.ReleasingSharedGPUsMemory) && !(g in ni.AllocatedSharedGPUsMemory) && !(g in ni.ReleasingSharedGPUs)
+// nodeWF without its two data conditions that a snapshot cannot promise for EVERY API state: a positive per-GPU memory
+// (label value in [0,99] or negative: finding F1) and vectors as long as the shared layout (the layout grows while the
+// snapshot is built)
+//@ define nodeShape(ni *NodeInfo) bool = ni != nil && ni.Node != nil && ni.Idle != nil && ni.Releasing != nil && ni.Used != nil && ni.Allocatable != nil && ni.Idle != ni.Releasing && ni.Idle != ni.Used && ni.Used != ni.Releasing && resWF(ni) && gpuMapsWF(ni) && ni.VectorMap != nil
+
+// C14 "what the scheduler believes about each node (idle, used and releasing resources ..., pods present) ... equals
+// the value recomputed from scratch from the pods": a node WITHOUT pods has Used = Releasing = 0, no shared-GPU
+// entries, no pods, and Idle = Allocatable = the amount of node.status.allocatable (C01 observes "node.status.allocatable").
+// C10 "nodes without labels or with zero capacity": total for every node object (nil label / allocatable maps included).
+//@ func NewNodeInfo
+//@   props C14 C01 C10
+//@   requires node != nil && ri.vmWF(vectorMap)
+//@   fresh
+//@   ensures [identity] result.Node == node && result.Name == node.Name && result.VectorMap == vectorMap && result.PodAffinityInfo == podAffinityInfo
+//@   ensures [gpuMemory] result.MemoryOfEveryGpuOnNode == nodeGpuMemory(node) && result.GpuMemorySynced == gpuMemLabelOk(node)
+//@   ensures [allocatable] isListAmount(result.Allocatable, node.Status.Allocatable)
+//@   ensures [idleIsAllocatable] sameResource(result.Idle, result.Allocatable)
+//@   ensures [nothingUsed] zeroResource(result.Used) && zeroResource(result.Releasing)
+//@   ensures [noPods] (forall k common_info.PodID :: !(k in result.PodInfos) && !(k in result.LegacyMIGTasks)) && noSharedGpus(result)
+//@   ensures [shape] nodeShape(result) && fresh(result.Idle) && fresh(result.Used) && fresh(result.Releasing) && fresh(result.Allocatable) && result.Allocatable != result.Idle && result.Allocatable.scalarResources != result.Idle.scalarResources
+//@   ensures [vectors] len(result.IdleVector) == len(vectorMap.resourceNames) && len(result.UsedVector) == len(vectorMap.resourceNames) && len(result.ReleasingVector) == len(vectorMap.resourceNames) && len(result.AllocatableVector) == len(vectorMap.resourceNames)
+//@   ensures [wf] nodeGpuMemory(node) > 0 ==> nodeWF(result)
+//@   ensures [podsWF] result.PodInfos != nil && fresh(result.PodInfos) && result.LegacyMIGTasks != nil && fresh(result.LegacyMIGTasks)
+//@ end
